@@ -340,9 +340,7 @@ class SpecMixin:
                 raise Unsupported("deep value of list of references")
             return [st.list_len(sv.ty, sv.t), st.list_elems(sv.ty, sv.t)]
         v = self.coerce(sv, ty, st)
-        if v.none is not None and ty.kind != "val":
-            return [box(v)]
-        return [v.t]
+        return [v.t]  # a None argument of a scalar parameter is the callee's TypeError, not a value
 
     def arg_sorts(self, ty, opt=False):
         if ty.kind == "opt":
@@ -366,7 +364,7 @@ class SpecMixin:
             else:
                 zargs += self.expand_arg(a, t, st)
                 zsorts += self.arg_sorts(t)
-        return self.apply_uf(name, zargs, zsorts, retty)
+        return self.apply_uf(self.reg.specfun_alias.get(name, name), zargs, zsorts, retty)
 
     def apply_uf(self, name, zargs, zsorts, retty):
         if retty.kind in ("map", "dict"):
@@ -581,7 +579,18 @@ class SpecMixin:
         # 3. result
         res = None
         if c.returns is not None:
-            res = self.fresh_sv("res_" + c.qualname.split(".")[-1], c.returns, st)
+            if ctx.binders and c.returns.is_ref:
+                # inside a comprehension: one fresh object per binding of the bound variables (an injective function of them)
+                vars_ = [v for vs, _ in ctx.binders for v in vs]
+                fn = z3.Function(fresh_name("res_" + c.qualname.split(".")[-1]), *([v.sort() for v in vars_] + [I]))
+                res = SV(c.returns, fn(*vars_))
+                v2 = [z3.Const(fresh_name("b"), v.sort()) for v in vars_]
+                self.facts.append(z3.ForAll(vars_ + v2, z3.Implies(fn(*vars_) == fn(*v2), z3.And(*[a == b for a, b in zip(vars_, v2)])),
+                                            patterns=[z3.MultiPattern(fn(*vars_), fn(*v2))]))
+                if not c.fresh_result:
+                    raise Unsupported("call inside a comprehension returns an object that is not fresh (%s)" % c.qualname)
+            else:
+                res = self.fresh_sv("res_" + c.qualname.split(".")[-1], c.returns, st)
             self.result_facts(res, c, pre, st)
         if c.pure:
             res = self.pure_result(c, params, res, pre, st)
